@@ -312,7 +312,7 @@ def run(ctx: Ctx):
     n = ctx.n(120, 2500)
     for config, T, tl in plan:
         ctx.run_given("rollout", rollout_cases(config, T, tl), oracle_rollout, n)
-    for config, T, tl in [("disc-onehot", 16, "some"), ("box-scalar", 16, "some"), ("disc-dict", 5, "some"), ("box-vec2", 5, "none")] + ([("disc-masked", 16, "some"), ("disc-tuple", 5, "some")] if not quick else []):
+    for config, T, tl in [("disc-onehot", 16, "some"), ("box-scalar", 16, "some"), ("disc-dict", 5, "some"), ("box-vec2", 5, "none"), ("disc-masked", 16, "some")] + ([("disc-tuple", 5, "some")] if not quick else []):
         ctx.run_given("rollout", rollout_cases(config, T, tl, policy_kind="mlp"), oracle_rollout, ctx.n(60, 1200))
     for name, T in (("CartPole", 12), ("Pendulum", 12)):
         ctx.run_given("classic_rollout", classic_cases(name, T), oracle_classic_rollout, ctx.n(60, 1200))
